@@ -715,6 +715,12 @@ func (i *importer) importMuxSignal(dbcMuxSig *dbc.Signal, dbcMsgID uint32, muxed
 	muxSigStartBit := i.getSignalStartBit(dbcMuxSig)
 	muxSigSize := int(dbcMuxSig.Size)
 
+	// a multiplexer always has at least one selector bit, a switch of size 0
+	// would be imported one bit wider and move the signals it multiplexes
+	if muxSigSize == 0 {
+		return nil, i.errorf(dbcMuxSig, &SignalSizeError{Size: muxSigSize, Err: ErrIsZero})
+	}
+
 	if muxedEndBit > 0 {
 		groupSize = muxedEndBit - muxSigStartBit - muxSigSize
 	} else {
